@@ -44,10 +44,10 @@ type rl = []func(*Run)
 type kp = []string
 
 var properties = map[string]propSpec{
-	"C01": {Rules: rl{ruleBroadcastShape, ruleMutateRelay, ruleAcceptedApplies, ruleCascade, ruleSnapshot, ruleErrorDiscipline, ruleModuleCleanup, ruleModuleInit, ruleStoreContracts, ruleSubscriptions, ruleEntityActions, ruleAtomicity}, Keep: kp{"C3", "C1", "B8", "E4", "C7", "ERR", "E3", "J3", "J4", "S-", "E8"}, Sites: map[string][]string{"E8": {"entity:exists", "modulestate:missing"}}},
+	"C01": {Rules: rl{ruleAcceptedPerforms, ruleBroadcastShape, ruleMutateRelay, ruleAcceptedApplies, ruleCascade, ruleSnapshot, ruleErrorDiscipline, ruleModuleCleanup, ruleModuleInit, ruleStoreContracts, ruleSubscriptions, ruleEntityActions, ruleAtomicity}, Keep: kp{"B9", "C3", "C1", "B8", "E4", "C7", "ERR", "E3", "J3", "J4", "S-", "E8"}, Sites: map[string][]string{"E8": {"entity:exists", "modulestate:missing"}}},
 	"C02": {Rules: rl{ruleMutateRelay, ruleAcceptedApplies, ruleAnswers, ruleSenderExcluded, ruleDecoratorForward, ruleBroadcastShape, ruleRelaySync, ruleModuleInit}, Keep: kp{"C1", "B8", "B5", "B7", "C2", "A2", "C3", "C6", "J3"}},
 	"C03": {Rules: rl{ruleNoGlobalSessionData, ruleBroadcastShape, ruleSenderExcluded, ruleJoinedGuard, rulePairedState, ruleDispatchTotal, ruleAnswers, ruleModuleInit, ruleRegistry, ruleIDGenerator, ruleLeaveCallers}, Keep: kp{"J5", "C3", "J6", "J1", "J2", "E9", "A1", "B5", "J3", "E7", "D3", "E2"}},
-	"C04": {Rules: rl{ruleDispatchTotal, ruleAnswers, ruleAcceptedApplies, ruleJoinedGuard, ruleDecoratorForward, ruleModuleCleanup, ruleStoreContracts, ruleSubscriptions}, Keep: kp{"A1", "B", "J2", "A2", "E3", "S-"}},
+	"C04": {Rules: rl{ruleAcceptedPerforms, ruleDispatchTotal, ruleAnswers, ruleAcceptedApplies, ruleJoinedGuard, ruleDecoratorForward, ruleModuleCleanup, ruleStoreContracts, ruleSubscriptions}, Keep: kp{"A1", "B", "J2", "A2", "E3", "S-"}},
 	"C05": {Rules: rl{rulePairedState, ruleModuleInit, ruleOwnerGuard, ruleAnswers, ruleSenderExcluded, ruleIDGenerator, ruleIDSources}, Keep: kp{"E9", "J3", "D1", "B5", "J1", "D3", "D2", "D5"}},
 	"C06": {Rules: rl{ruleLeaveComplete, ruleLeaveCallers, ruleModuleCleanup, ruleCascade, ruleDecoratorForward, ruleMutateRelay, ruleSnapshot, ruleSubscriptions, ruleStoreContracts}, Keep: kp{"E1", "E2", "E3", "E4", "E6", "E9", "A2", "C1", "C7", "S-UnsubscribeAll", "S-DeleteByEntity"}},
 	"C07": {Rules: rl{rulePairedState, ruleLeaveComplete, ruleLeaveCallers, ruleRegistry, ruleIDGenerator, ruleFramePair, ruleAnswers, ruleAtomicity}, Keep: kp{"E1", "E2", "E6", "E7", "E9", "D3", "B4", "B1", "E8"}, Sites: map[string][]string{"B": {"HandleParticipantJoin"}, "E8": {"registry:", "session:empty"}}},
@@ -55,8 +55,8 @@ var properties = map[string]propSpec{
 	"C09": {Rules: rl{ruleGuardedBy, ruleNoEscape, ruleLockOrder, ruleLockPairing, ruleSplitCriticalSection, ruleWaitFor, ruleDeferUnlock, ruleFramePair, ruleAtomicity, ruleThreadConfinement}},
 	"C10": {Rules: rl{ruleGuardedBy, ruleIDGenerator, ruleStoreContracts, ruleSplitCriticalSection, ruleIDSources, ruleEntityActions, ruleRegistry, ruleAtomicity}, Keep: kp{"F1", "D3", "D4", "E8a", "D5", "E7", "E8"}, Sites: map[string][]string{"E8": {"session:empty"}, "F1": {"SequentialIDGenerator", "EntityComponentStore.idIndex", "EntityComponentStore.nameIndex", "SessionStore.sessions"}}},
 	"C11": {Rules: rl{rulePairedState, rulePBNil, ruleSnapshot, ruleAnswers, ruleOwnerGuard, ruleFramePair, ruleIDGenerator, ruleMutateRelay, ruleFlagWrap}, Keep: kp{"E9", "G1", "C11-pose", "B5", "B7", "D1", "E6", "D3", "C1", "C4c"}},
-	"C12": {Rules: rl{ruleJoinedGuard, rulePairedState, ruleStoreContracts, ruleCascade, ruleErrorDiscipline, ruleSplitCriticalSection}, Keep: kp{"J2", "E9", "S-", "D4", "E4", "ERR", "E8a"}},
-	"C13": {Rules: rl{ruleNotifyGated, ruleSenderExcluded, ruleSubscriptions, ruleLeaveComplete}, Keep: kp{"C5", "C2", "S-", "E1"}},
+	"C12": {Rules: rl{ruleAcceptedPerforms, ruleJoinedGuard, rulePairedState, ruleStoreContracts, ruleCascade, ruleErrorDiscipline, ruleSplitCriticalSection}, Keep: kp{"B9", "J2", "E9", "S-", "D4", "E4", "ERR", "E8a"}},
+	"C13": {Rules: rl{ruleAcceptedPerforms, ruleNotifyGated, ruleSenderExcluded, ruleSubscriptions, ruleLeaveComplete}, Keep: kp{"B9", "C5", "C2", "S-", "E1"}},
 	"C14": {Rules: rl{rulePairedState, ruleBroadcastShape, ruleSenderExcluded, ruleCustomMessage, ruleRelaySync}, Keep: kp{"E9", "C3", "J6", "C2", "H1", "H4", "C6"}},
 	"C15": {Rules: rl{ruleAuthGate}, Keep: kp{"I6"}},
 	"C16": {Rules: rl{ruleEntityActions, ruleSnapshot, ruleOwnerGuard, ruleModuleInit, ruleModuleCleanup}, Keep: kp{"H3", "S-", "D5", "C7", "D1", "J4", "J3", "E3"}},
